@@ -51,7 +51,9 @@ def gen_tree(rng, n_secs, depth_max):
         counter[0] += 1
         nd = {"name": None, "type": rng.choice(TYPES), "props": [], "secs": [],
               # stored through the constructor, as a reader does: nothing is fetched
-              "repository": rng.choice(REPOS)}
+              "repository": rng.choice(REPOS),
+              "definition": rng.choice([None, None, "definition of a section"]),
+              "reference": rng.choice([None, None, None, "ref-1"])}
         for k in range(rng.choice([0, 0, 1, 2])):
             # now and then a Property is named like Sections are: a Section and a Property of one
             # name under one parent are different children
@@ -201,7 +203,8 @@ def generate(run_seed):
 def build(odml, roots, parent):
     for nd in roots:
         sec = odml.Section(name=nd["name"], type=nd["type"], parent=parent,
-                           repository=nd.get("repository"))
+                           repository=nd.get("repository"), definition=nd.get("definition"),
+                           reference=nd.get("reference"))
         for p in nd["props"]:
             odml.Property(name=p["name"], values=p["values"], unit=p.get("unit"), parent=sec)
         build(odml, nd["secs"], sec)
@@ -296,6 +299,11 @@ class World(object):
         if any(obj is c for c in cut) or depth > 50:
             out["cut"] = True
             out.pop("merged", None)
+            # a linking Section that has no definition / reference of its own shows the one of
+            # its target while it is resolved (part of what the reference brings in; whether
+            # clean takes it away again is judged by the restoration law)
+            out.pop("definition", None)
+            out.pop("reference", None)
             return out
         if kind_of(obj) in ("doc", "sec"):
             out["secs"] = [self.tree(s, with_ids, cut, designate, depth + 1) for s in obj.sections]
@@ -334,7 +342,8 @@ def run_case(case):
             par = linker.parent
             idx = [i for i, s in enumerate(par.sections) if s is linker][0]
             new = odml.Section(name=linker.name, type=linker.type, oid=linker.id,
-                               repository=linker.repository, **ref)
+                               repository=linker.repository, definition=linker.definition,
+                               reference=linker.reference, **ref)
             for ch in list(linker.sections) + list(linker.properties):
                 new.append(ch)
             par.sections[idx] = new
